@@ -241,6 +241,7 @@ func (r *Reconciler) updateInstanceWithCurrentRS(logger logr.Logger, now time.Ti
 
 	var updateDaemonsetSpec bool
 	var updateDaemonsetAnnotations bool
+	var selectNodesErr error
 	// If the deployment is in Canary phase, then update status (and spec as needed).
 	if daemonset.Spec.Strategy.Canary != nil {
 		metaNow := metav1.NewTime(now)
@@ -269,10 +270,13 @@ func (r *Reconciler) updateInstanceWithCurrentRS(logger logr.Logger, now time.Ti
 			}
 
 			if nbCanaryPod != len(newDaemonset.Status.Canary.Nodes) {
+				previousNodes := append([]string(nil), newDaemonset.Status.Canary.Nodes...)
 				if err = r.selectNodes(logger, daemonset, &newDaemonset.Spec, upToDate, newDaemonset.Status.Canary); err != nil {
 					logger.Error(err, "unable to select Nodes for canary")
-
-					return newDaemonset, reconcile.Result{}, err
+					// keep the previous selection and report the error once the rest of the status is stored:
+					// state, conditions and counters must keep following the replicasets meanwhile
+					newDaemonset.Status.Canary.Nodes = previousNodes
+					selectNodesErr = err
 				}
 			}
 		} else {
@@ -321,7 +325,7 @@ func (r *Reconciler) updateInstanceWithCurrentRS(logger logr.Logger, now time.Ti
 		newDaemonset = extendedDaemonsetCopy
 	}
 
-	return newDaemonset, reconcile.Result{}, nil
+	return newDaemonset, reconcile.Result{}, selectNodesErr
 }
 
 func (r *Reconciler) selectNodes(logger logr.Logger, daemonset *datadoghqv1alpha1.ExtendedDaemonSet, daemonsetSpec *datadoghqv1alpha1.ExtendedDaemonSetSpec, replicaset *datadoghqv1alpha1.ExtendedDaemonSetReplicaSet, canaryStatus *datadoghqv1alpha1.ExtendedDaemonSetStatusCanary) error {
